@@ -165,3 +165,67 @@ func widthOf(b *types.Basic) int {
 	}
 	return 64
 }
+
+// noEmptySegmentOnTheWire: an AS_PATH segment with a count of zero is malformed (RFC 4271 §6.3) and every decoder —
+// bio-rd's own included — rejects it.  Paths of locally originated / redistributed routes are modelled with ONE EMPTY
+// segment, so the serializer must not write a segment header for a segment without ASNs: the write of the segment's
+// count octet is controlled by a test that the segment has ASNs.
+func noEmptySegmentOnTheWire(c *core.Ctx) {
+	const rule = "no-empty-segment-on-the-wire"
+	f := c.MustFunc(pktPkg + ".(*PathAttribute).serializeASPath")
+	if f == nil {
+		return
+	}
+	c.Analysed(f)
+	asns := c.P.Field("protocols/bgp/types", "ASPathSegment", "ASNs")
+	n := 0
+	ast.Inspect(f.Decl.Body, func(nd ast.Node) bool {
+		call, ok := nd.(*ast.CallExpr)
+		if !ok || len(call.Args) != 1 {
+			return true
+		}
+		se, ok := call.Fun.(*ast.SelectorExpr)
+		if !ok || se.Sel.Name != "WriteByte" {
+			return true
+		}
+		// WriteByte(uint8(len(segment.ASNs)))
+		isCount := core.NodeHas(call.Args[0], func(x ast.Node) bool {
+			lc, ok := x.(*ast.CallExpr)
+			if !ok || len(lc.Args) != 1 {
+				return false
+			}
+			id, ok := lc.Fun.(*ast.Ident)
+			return ok && id.Name == "len" && core.FieldOf(f.Pkg, lc.Args[0]) == asns && asns != nil
+		})
+		if !isCount {
+			return true
+		}
+		n++
+		guarded := false
+		for _, ft := range core.FactsAt(f, call) {
+			be, ok := core.Unparen(ft.Expr).(*ast.BinaryExpr)
+			if !ok {
+				continue
+			}
+			lenSide := core.NodeHas(be.X, func(x ast.Node) bool {
+				lc, ok := x.(*ast.CallExpr)
+				if !ok || len(lc.Args) != 1 {
+					return false
+				}
+				id, ok := lc.Fun.(*ast.Ident)
+				return ok && id.Name == "len" && core.FieldOf(f.Pkg, lc.Args[0]) == asns
+			})
+			v := core.ConstOf(f.Pkg, be.Y)
+			if !lenSide || v == nil || v.ExactString() != "0" {
+				continue
+			}
+			if (be.Op == token.EQL && !ft.Truth) || (be.Op == token.NEQ && ft.Truth) || (be.Op == token.GTR && ft.Truth) || (be.Op == token.LEQ && !ft.Truth) {
+				guarded = true
+			}
+		}
+		c.Check(guarded, rule, fmt.Sprintf("%s writes segment count #%d only for segments with ASNs", f.Name(), n), call.Pos(),
+			"the serializer writes a segment header for a segment that may have no ASNs: a locally originated route sent to an iBGP peer goes out with an AS_PATH segment of length 0, which is malformed — the receiver (bio-rd's own decoder too) rejects the UPDATE")
+		return true
+	})
+	c.Check(n >= 1, rule, "segment count writes found", f.Decl.Pos(), "serializeASPath writes no segment count")
+}
